@@ -342,7 +342,7 @@ def n_user_formulas(e):
 
 
 # ---- model tie: real Graph.invalidate_deps vs DepsExec.inval on the exported real graph ---------------
-def inval_cases(ctx, e, k):
+def inval_cases(ctx, e, k, history=None):
   """k cases (Coq literals) from the current graph of e; [] if it cannot be exported."""
   r = ctx.rng
   try:
@@ -379,6 +379,7 @@ def inval_cases(ctx, e, k):
       ctx.bump('model:unexportable')
       continue
     out.append(depsexport.case_lit(ex, inv, lkrows, lkkeys, m0, n, rows, incl, expected))
+    ctx._c05_case_info.append((copy.deepcopy(history or []), back[n].table_id, back[n].col_id))
     dirtied = sum(1 for v in expected.values() if v is None or v)
     ctx.count(('inval', len(ctx._c05_cases) + len(out), n, rows, incl), nontrivial=dirtied > (1 if incl else 0),
               kind='model:inval:' + ('all' if rows is None else 'rows'))
@@ -394,7 +395,7 @@ def exploit(ctx, e, m, problem, history):
   t = e.tables.get(dnode.table_id)
   if t is None or dnode.col_id not in t.all_columns or t.all_columns[dnode.col_id].is_formula() \
      or dnode.table_id.startswith('_grist_') or q not in t.row_ids:
-    return False
+    return focused_search(ctx, history, dnode.table_id, dnode.col_id)
   for v in (7, 'zz', 0, 3.5, None):
     b = [['UpdateRecord', dnode.table_id, q, {dnode.col_id: v}]]
     try:
@@ -407,7 +408,48 @@ def exploit(ctx, e, m, problem, history):
       report(ctx, e, r, history, b)
       return True
     history.append(b)
+  return focused_search(ctx, history, dnode.table_id, dnode.col_id)
+
+
+def schema_probes(table_id, col_id):
+  """Sequences of bundles that edit the SCHEMA of one column (the dependency a tie/monitor failure points at)."""
+  if table_id.startswith('_grist_') or col_id.startswith('#') or col_id in ('id', 'manualSort'):
+    return []
+  seqs = [[[['ModifyColumn', table_id, col_id, {'type': ty}]]] for ty in ('Text', 'Int', 'Numeric', 'Any', 'Bool')]
+  seqs.append([[['RenameColumn', table_id, col_id, col_id + '_r9']], [['RenameColumn', table_id, col_id + '_r9', col_id]]])
+  seqs.append([[['RemoveColumn', table_id, col_id]], [['AddColumn', table_id, col_id, {'type': 'Text', 'isFormula': False}]]])
+  seqs.append([[['ModifyColumn', table_id, col_id, {'isFormula': True, 'formula': '$id'}]],
+               [['ModifyColumn', table_id, col_id, {'isFormula': False}]]])
+  return seqs
+
+
+def focused_search(ctx, history, table_id, col_id):
+  """Same document, schema edits of the given column, scratch oracle after each; True if a failing input was found."""
+  for seq in schema_probes(table_id, col_id):
+    try:
+      e = c05lib.run_bundles(history)
+    except Exception:
+      return False
+    done = [copy.deepcopy(b) for b in history]
+    for b in seq:
+      c05lib.apply_or_clean(e, copy.deepcopy(b))
+      ctx.bump('focused:schema-probe')
+      try:
+        r = oracle(e, b)
+      except Exception:
+        break
+      if r is not None:
+        kind = known_kind(r[0])
+        if kind:                 # a registered root cause: not what the broken tie is about, keep looking
+          continue
+        report(ctx, e, r, done, b)
+        return True
+      done.append(b)
   return False
+
+
+def known_kind(kind):
+  return kind in (SORT_HELPER, LOOKUP_SCHEMA, SUMMARY_HELPER, 'cyclic-through-lookup')
 
 
 def monitored_history(ctx, seed, nb, cases_per_hist):
@@ -439,7 +481,7 @@ def monitored_history(ctx, seed, nb, cases_per_hist):
         ctx.broken('monitor:' + p[0], '%s  [history seed %d step %d, last bundle %r]' % (p[1], seed, step, bundle))
         exploit(ctx, e, m, p, history)
       if step >= 2 and step % 3 == 2 and len(ctx._c05_cases) < ctx._c05_case_budget:
-        ctx._c05_cases.extend(inval_cases(ctx, e, cases_per_hist))
+        ctx._c05_cases.extend(inval_cases(ctx, e, cases_per_hist, history))
   finally:
     depsenv.Monitor.active = None
   return m
@@ -448,6 +490,7 @@ def monitored_history(ctx, seed, nb, cases_per_hist):
 def correspond(ctx):
   depsenv.Monitor.install()
   ctx._c05_cases = []
+  ctx._c05_case_info = []
   ctx._c05_case_budget = ctx.n(400, 4000)
   t0 = time.time()
   budget = ctx.n(18, 420)
@@ -467,6 +510,14 @@ def correspond(ctx):
   for i in bad[:5]:
     ctx.broken('correspondence:DepsExec.invalidate_deps differs from depend.Graph.invalidate_deps',
                ctx._c05_cases[i][:3000])
+  tried = set()
+  for i in bad:                       # focused search around the disagreeing start node: schema edits of that column
+    if i < len(ctx._c05_case_info) and len(tried) < 6:
+      hist, tid, cid = ctx._c05_case_info[i]
+      if (tid, cid, len(hist)) not in tried:
+        tried.add((tid, cid, len(hist)))
+        if focused_search(ctx, hist, tid, cid):
+          break
   ctx.log('model tie: %d invalidate_deps cases evaluated in Coq, %d differ' % (len(ctx._c05_cases), len(bad)))
 
 
